@@ -433,7 +433,9 @@ static void do_op (char *op)
   else if (!strcmp (a[0], "getcreds")) { gchar *u = NULL, *p = NULL; gboolean r = nice_agent_get_local_credentials (A[I (1)].agent, I (2), &u, &p); T ("api %d local_credentials %d =%d %s %s", I (1), I (2), r, u ? u : "-", p ? p : "-"); g_free (u); g_free (p); }
   else if (!strcmp (a[0], "send")) { /* send,i,s,c,len,seed */ guint len = I (4); guint8 *d = g_malloc (len ? len : 1); unsigned h = 5381; for (guint k = 0; k < len; k++) { d[k] = (I (5) * 31 + k * 7 + (k >> 8)) & 0xff; h = (h * 33 + d[k]) & 0xffffff; }
     if (n > 6 && !strcmp (a[6], "stunlike") && len >= 20) { d[0] = 0; d[1] = 1; d[2] = (len - 20) >> 8; d[3] = (len - 20) & 0xff; d[4] = 0x21; d[5] = 0x12; d[6] = 0xa4; d[7] = 0x42; h = 5381; for (guint k = 0; k < len; k++) h = (h * 33 + d[k]) & 0xffffff; }
-    gint r = nice_agent_send (A[I (1)].agent, I (2), I (3), len, (gchar *) d); T ("api %d send %d %d %u %u =%d", I (1), I (2), I (3), len, h, r); g_free (d); }
+    GOutputVector ov = { d, len }; NiceOutputMessage om = { &ov, 1 }; GError *ge = NULL;
+    gint r = nice_agent_send_messages_nonblocking (A[I (1)].agent, I (2), I (3), &om, 1, NULL, &ge); if (r == 1) r = len;
+    T ("api %d send %d %d %u %u err=%d =%d", I (1), I (2), I (3), len, h, ge ? ge->code : -1, r); g_clear_error (&ge); g_free (d); }
   else if (!strcmp (a[0], "remove_stream")) { nice_agent_remove_stream (A[I (1)].agent, I (2)); T ("api %d remove_stream %d", I (1), I (2)); }
   else if (!strcmp (a[0], "consent_lost")) { gboolean r = nice_agent_consent_lost (A[I (1)].agent, I (2), I (3)); T ("api %d consent_lost %d %d =%d", I (1), I (2), I (3), r); }
   else if (!strcmp (a[0], "set_selected")) { /* force pair: first local, first remote candidate foundations */
